@@ -1,0 +1,23 @@
+//go:build verif
+
+package data
+
+// Lemma functions for the govc verifier (build tag verif only; never called).
+
+// verifPointRoundTrip: a point converted to its wire message and back.
+func verifPointRoundTrip(p Point) (Point, error) {
+	pPb, err := p.ToPb()
+	if err != nil {
+		return Point{}, err
+	}
+	return PbToPoint(&pPb)
+}
+
+// verifSerialPointRoundTrip: a point converted to its serial wire message and back.
+func verifSerialPointRoundTrip(p Point) (Point, error) {
+	pPb, err := p.ToSerial()
+	if err != nil {
+		return Point{}, err
+	}
+	return SerialToPoint(&pPb)
+}
